@@ -175,6 +175,20 @@ def call(px, st, name, t, args, fid, fn):
                 for s3, rv in px.call_closure(s2, args[1], []):
                     outs.append((s3, rv if rv == ('PANIC',) else ('adt', 'core::std::result::Result', 'Err', (rv,))))
         return outs
+    if n.endswith('option::Option::<T>::replace') or n.endswith('option::Option::<T>::take') or n.endswith('option::Option::<T>::insert') or re.search(r'mem::(replace|take)$', n):
+        a = args[0]
+        if a[0] == 'ref':
+            pl = a[1]
+            old = px.read(st, pl)
+            last = n.split('::')[-1]
+            if 'option::Option' in n:
+                new = ('adt', 'core::std::option::Option', 'None', ()) if last == 'take' else ('adt', 'core::std::option::Option', 'Some', (args[1],))
+            else:
+                new = args[1] if last == 'replace' else pure('default', (('ty', t.get('dest', {}).get('ty', '')),))
+            px.write(st, pl, new, t.get('sp'))
+            if last == 'insert' and 'option::Option' in n:
+                return [(st, px.mkref(px.canon(st, ('F', ('D', pl, 'Some'), 0))))]
+            return [(st, old)]
     if n.endswith('option::Option::<T>::map'):
         outs = []
         for tag, s2 in px.decide_tag(st, args[0]):
@@ -528,7 +542,7 @@ def totality(name):
     if PURE_RE.search(n) or MUTATOR_RE.search(n) or FMT_RE.search(n):
         return 'total'
     if re.search(r'(as std::ops::Try>::branch$|::from_residual$|::map_err$|::ok$|::map$|::or_else$|::or$|::map_or$|::map_or_else$|::unwrap_or$|::unwrap_or_default$|'
-                 r'::unwrap_or_else$|::transpose$|::and_then$|::ok_or$|::ok_or_else$|::filter$|::then_some$|::then$|::is_some_and$|::is_ok_and$|::try_for_each$|::try_fold$|::replace$|::take$|::flatten$|::find$|::find_map$|::position$|::zip$|::copied$|::cloned$|::peek$|::next$|::any$|::all$|::collect$|'
+                 r'::as_mut$|::as_deref_mut$|::unwrap_or_else$|::transpose$|::and_then$|::ok_or$|::ok_or_else$|::filter$|::then_some$|::then$|::is_some_and$|::is_ok_and$|::try_for_each$|::try_fold$|::replace$|::take$|::flatten$|::find$|::find_map$|::position$|::zip$|::copied$|::cloned$|::peek$|::next$|::any$|::all$|::collect$|'
                  r'RangeInclusive::<Idx>::(contains|new)$|Range::<Idx>::contains$|::serialize_str$|::deserialize_str$|::deserialize_string$|::deserialize_any$|'
                  r'::custom$|::into_boxed_slice$|::iter$|::get$|::first$|::last$|::fold$|::for_each$|::next_back$|::size_hint$|::drop$|::write_char$)', n):
         return 'total'
